@@ -3,9 +3,9 @@ package main
 import (
 	"fmt"
 	"go/constant"
-	"regexp"
 	"go/token"
 	"go/types"
+	"regexp"
 	"sort"
 	"strings"
 
@@ -809,7 +809,9 @@ func isAlwaysErr(v ssa.Value) bool {
 }
 
 // nilPreserving recognises module wrappers of the shape
-//   func W(err error) error { if err == nil { return nil }; return T{err} }
+//
+//	func W(err error) error { if err == nil { return nil }; return T{err} }
+//
 // (visor.NewErrTxnViolatesHardConstraint and friends) by analysing W itself:
 // W's only success exit requires "$0 == nil", and every exit under "$0 != nil" rejects.
 func (ff *FuncFacts) nilPreserving(v ssa.Value) (ssa.Value, bool) {
